@@ -1,4 +1,7 @@
 import TracklibVerif.Model.Features
+import TracklibVerif.Model.FeaturesWorld
+import TracklibVerif.Model.FeaturesCall
+import TracklibVerif.Model.FeaturesFront
 import TracklibVerif.Model.Expr
 import TracklibVerif.Drv.Util
 /-! Driver handler for C01 (feature table). Commands:
@@ -7,6 +10,24 @@ import TracklibVerif.Drv.Util
   arun  <xs> <ys> <zs> <ts> <op> <op> …                 the specification (`ATab`: name ↦ column), fresh track
   runi  <xs> <ys> <zs> <ts> <names> <cols> <op> …       the same on a track that already carries a table
   aruni <xs> <ys> <zs> <ts> <names> <cols> <op> …       (names `,`-separated, columns `;`-separated, `_` = none)
+
+  world <step> <step> …                                  several tracks on one heap of Obs objects (`Model/FeaturesWorld.lean`):
+        new:XS:YS:ZS:TS         a new track of new observations (tracks are numbered 0, 1, … in order of creation)
+        on:K                    the following steps are addressed to track K (no reply block)
+        d:copy | d:extract:I:J | d:slice:I:J | d:span:I:J | d:loop | d:addcopy:I:POS | d:plus:K2
+                                a track made from the track in focus (POS empty = addObs); `loop` / `addcopy` change the track
+                                itself, the others make a new last track
+        <op>                    an API call on the track in focus
+    reply: one group per step (`on` excepted), groups separated by a space; a group = the blocks of ALL tracks, in order,
+    separated by `^`, each carrying the outcome / returned value of the step
+
+  vrun  <xs> <ys> <zs> <ts> <vop> <vop> …               the model of the code at V := String: every cell value is an opaque TOKEN standing for
+  varun <xs> <ys> <zs> <ts> <vop> <vop> …               a Python object (None, bool, int, float, str, numpy scalar …), front ends of `Model/FeaturesFront.lean` included
+        value tokens: `n<p>` | `n<p>/<q>` | `nnan` | `ninf` | `n-inf` (a number, by value), `s<hex>` (a str), `o<hex>` (any other object)
+        create:N:s:V | create:N:l:V,V,… | create:N:d (no second argument) ; N = `!` is `name=None`
+        setitem:N:s:V | setitem:N:l:…   (`track[N] = obs`: the token of the str "#DELETE" deletes)
+        update:N:s|l:…  remove:N  setobs:N:I:V  addaf:N:const:V  rev:IN:OUT  expr:LHS,RHS,=   (calls that only MOVE values)
+    reply blocks as below with tokens in place of the floats
 
 Floats are IEEE bit patterns / `nan`. A NAME made of `[A-Za-z0-9#]+` is written as it is, any other name
 (empty, blanks, operator or protocol characters, non-ASCII) as `|` followed by the hexadecimal UTF-8 bytes.
@@ -23,6 +44,8 @@ One op is one token, fields separated by `:` (an empty last field = argument not
   opq:COLS:CELLS:OUT:V,V,…   (operator with opaque values: column reads, cell reads, output, values written)
   rev:IN:OUT   probe:COLS:CELLS   (non-void operator: reads only)
   expr:tok,tok,…   (RPN of the expression; name tokens encoded as above)
+  seq;<op>;<op>;…  (list form of a void operator family, `Model/FeaturesCall.lean`: the single calls, one per position)
+  refused          (list form of a value-returning unary / binary operator: TypeError)
 Reply: one block per op, blocks separated by a space:
   outcome~ret~names~columns~rowlens~xs~ys~zs~ts
 with outcome `ok` or `err:<kind>`, ret `-` | `n<v>` | `c<v,…>`, names `,`-separated in dict order (encoded),
@@ -244,28 +267,180 @@ def op? (tok : String) : Option (Op Float) :=
     if l.isEmpty then none else some (.expr l)
   | _ => none
 
-def runFrom (cmd : String) (xs ys zs ts : List Float) (cols : List (String × List Float)) (ops : List (Op Float)) : String :=
+def call? (tok : String) : Option (Call Float) :=
+  if tok == "refused" then some .refused
+  else match tok.splitOn ";" with
+    | "seq" :: toks => (toks.mapM op?).map .list
+    | _ => (op? tok).map .one
+
+def runFrom (cmd : String) (xs ys zs ts : List Float) (cols : List (String × List Float)) (ops : List (Call Float)) : String :=
   if ys.length != xs.length || zs.length != xs.length || ts.length != xs.length then "bad-request"
   else if cols.any (fun p => p.2.length != xs.length) || !(cols.map Prod.fst).Nodup then "bad-request"
   else if cmd == "run" || cmd == "runi" then
-    joinWith " " ((trace fops ops (mkSt cols xs ys zs ts)).map fun r => showSt r.1 r.2)
+    joinWith " " ((traceC fops ops (mkSt cols xs ys zs ts)).map fun r => showSt r.1 r.2)
   else if cmd == "arun" || cmd == "aruni" then
     let t : ATab Float := { cols := cols, xs := xs, ys := ys, zs := zs, ts := ts }
-    joinWith " " ((trace fops ops t).map fun r => showATab r.1 r.2)
+    joinWith " " ((traceC fops ops t).map fun r => showATab r.1 r.2)
   else "bad-request"
 
+
+/-! ### the instance at opaque values: V := String, one token per Python object -/
+
+/-- a value token: `n…` (number), `s…` (str), `o…` (other object) -/
+def vtok? (s : String) : Option String :=
+  if s.isEmpty then none
+  else if (s.front == 'n' && s.length > 1) || s.front == 's' || (s.front == 'o' && s.length > 1) then some s else none
+def vtokList? (s : String) : Option (List String) := (splitTok s ',').mapM vtok?
+
+/-- `Ops` on tokens. The calls admitted by `vop?` only move values (create / update / bracket / setObs / remove / a constant
+algorithm / REVERSER / the copy `lhs=rhs`): `add sub mul` are never reached; their value `?` is not a value token. -/
+def vops : Ops String where
+  zero := "n0"
+  nan := "nnan"
+  add := fun _ _ => "?"
+  sub := fun _ _ => "?"
+  mul := fun _ _ => "?"
+  ofNat := fun i => "n" ++ toString i
+  isNaN := fun v => v == "nnan"
+  parse := fun s => s.toInt?.map (fun i => "n" ++ toString i)
+
+/-- the token of the str `"#DELETE"` (`s` + hex of its UTF-8 bytes) -/
+def deleteTok : String := "s2344454c455445"
+def isDeleteTok (v : String) : Bool := v == deleteTok
+
+def vinit? (k v : String) : Option (Init String) :=
+  if k == "s" then (vtok? v).map .scalar
+  else if k == "l" then (vtokList? v).map .list
+  else none
+
+/-- `!` = the Python `None` given as a name -/
+def nameOrNone? (s : String) : Option (Option String) := if s == "!" then some none else (name? s).map some
+
+def vop? (tok : String) : Option (FCall String) :=
+  match tok.splitOn ":" with
+  | ["create", n, "d"] => do some (.create (← nameOrNone? n) none)
+  | ["create", n, k, v] => do some (.create (← nameOrNone? n) (some (← vinit? k v)))
+  | ["setitem", n, k, v] => do some (.bracket (← name? n) (← vinit? k v))
+  | ["update", n, k, v] => do some (.api (.one (.update (← name? n) (← vinit? k v))))
+  | ["remove", n] => do some (.api (.one (.remove (← name? n))))
+  | ["setobs", n, i, v] => do some (.api (.one (.setObs (← name? n) (← i.toNat?) (← vtok? v))))
+  | ["addaf", n, "const", v] => do some (.api (.one (.addAF (.const (← vtok? v)) (← name? n))))
+  | ["rev", inp, out] => do some (.api (.one (.reverser (← name? inp) (← optName? out))))
+  | ["expr", toks] => do
+    let l ← nameList? toks
+    match l with
+    | [_, _, "="] => some (.api (.one (.expr l)))
+    | _ => none
+  | _ => none
+
+def showRetV : Ret String → String
+  | .none => "-"
+  | .num v => "n" ++ v
+  | .col l => "c" ++ showList id l
+
+def showColV (r : Except Err (List String)) : String :=
+  match r with
+  | .ok l => showList id l
+  | .error e => showErr e
+
+def showOutcomeV (r : Except Err (Ret String)) : String × String :=
+  match r with
+  | .ok v => ("ok", showRetV v)
+  | .error e => (showErr e, "-")
+
+def showStV (r : Except Err (Ret String)) (st : St String) : String :=
+  let (a, b) := showOutcomeV r
+  let names := st.dico.map Prod.fst
+  "~".intercalate [a, b, joinWith "," (names.map encName),
+    joinWith ";" (names.map fun n => showColV (getC vops n st).1),
+    showList toString (st.rows.map List.length),
+    showList id st.xs, showList id st.ys, showList id st.zs, showList id st.ts]
+
+def showATabV (r : Except Err (Ret String)) (t : ATab String) : String :=
+  let (a, b) := showOutcomeV r
+  let names := t.cols.map Prod.fst
+  "~".intercalate [a, b, joinWith "," (names.map encName),
+    joinWith ";" (names.map fun n => showColV (getA vops n t).1),
+    showList toString (t.xs.map fun _ => t.cols.length),
+    showList id t.xs, showList id t.ys, showList id t.zs, showList id t.ts]
+
+def runV (cmd : String) (xs ys zs ts : List String) (ops : List (FCall String)) : String :=
+  if ys.length != xs.length || zs.length != xs.length || ts.length != xs.length then "bad-request"
+  else if cmd == "vrun" then
+    joinWith " " ((traceF vops isDeleteTok ops (mkSt [] xs ys zs ts)).map fun r => showStV r.1 r.2)
+  else
+    let t : ATab String := { cols := [], xs := xs, ys := ys, zs := zs, ts := ts }
+    joinWith " " ((traceF vops isDeleteTok ops t).map fun r => showATabV r.1 r.2)
+
+def showSys (r : Except Err (Ret Float)) (s : Sys Float) : String :=
+  "^".intercalate ((List.range s.trks.length).map fun k =>
+    match s.focus k with
+    | some w => showSt r (view w)
+    | none => "?")
+
+def derive? (f : List String) : Option Derive :=
+  match f with
+  | ["copy"] => some .copy
+  | ["extract", i, j] => do some (.extract (← i.toNat?) (← j.toNat?))
+  | ["slice", i, j] => do some (.slice (← i.toNat?) (← j.toNat?))
+  | ["span", i, j] => do some (.span (← i.toNat?) (← j.toNat?))
+  | ["loop"] => some .loopAdd
+  | ["addcopy", i, pos] => do some (.addCopy (← i.toNat?) (← (if pos.isEmpty then some none else pos.toNat?.map some)))
+  | ["plus", k] => do some (.plus (← k.toNat?))
+  | _ => none
+
+/-- one step of a `world` session: the system, the track in focus and the reply groups so far (in reverse) -/
+def worldStep (acc : Sys Float × Nat × List String) (tok : String) : Option (Sys Float × Nat × List String) :=
+  let (s, cur, out) := acc
+  match tok.splitOn ":" with
+  | ["new", xs, ys, zs, ts] => do
+    let xs ← floatList? xs
+    let ys ← floatList? ys
+    let zs ← floatList? zs
+    let ts ← floatList? ts
+    if ys.length != xs.length || zs.length != xs.length || ts.length != xs.length then none
+    else
+      let s' := s.newTrack xs ys zs ts
+      some (s', cur, showSys (.ok .none) s' :: out)
+  | ["on", k] => do
+    let k ← k.toNat?
+    if k < s.trks.length then some (s, k, out) else none
+  | "d" :: f => do
+    let d ← derive? f
+    match s.derive fops d cur with
+    | .ok (s', _) => some (s', cur, showSys (.ok .none) s' :: out)
+    | .error e => some (s, cur, showSys (.error e) s :: out)
+  | _ => do
+    let c ← call? tok
+    let w ← s.focus cur
+    let r := call fops c w
+    let s' := s.store cur r.2
+    some (s', cur, showSys r.1 s' :: out)
+
 def handle (cmd : String) (args : List String) : String :=
+  if cmd == "world" then
+    match args.foldlM worldStep (({ heap := [], trks := [] } : Sys Float), 0, []) with
+    | some (_, _, out) => joinWith " " out.reverse
+    | none => "bad-request"
+  else if cmd == "vrun" || cmd == "varun" then
+    match args with
+    | xs :: ys :: zs :: ts :: ops =>
+      match vtokList? xs, vtokList? ys, vtokList? zs, vtokList? ts, ops.mapM vop? with
+      | some xs, some ys, some zs, some ts, some ops => runV cmd xs ys zs ts ops
+      | _, _, _, _, _ => "bad-request"
+    | _ => "bad-request"
+  else
   if cmd == "run" || cmd == "arun" then
     match args with
     | xs :: ys :: zs :: ts :: ops =>
-      match floatList? xs, floatList? ys, floatList? zs, floatList? ts, ops.mapM op? with
+      match floatList? xs, floatList? ys, floatList? zs, floatList? ts, ops.mapM call? with
       | some xs, some ys, some zs, some ts, some ops => runFrom cmd xs ys zs ts [] ops
       | _, _, _, _, _ => "bad-request"
     | _ => "bad-request"
   else if cmd == "runi" || cmd == "aruni" then
     match args with
     | xs :: ys :: zs :: ts :: names :: cols :: ops =>
-      match floatList? xs, floatList? ys, floatList? zs, floatList? ts, nameList? names, floatListList? cols, ops.mapM op? with
+      match floatList? xs, floatList? ys, floatList? zs, floatList? ts, nameList? names, floatListList? cols, ops.mapM call? with
       | some xs, some ys, some zs, some ts, some names, some cols, some ops =>
         if names.length != cols.length then "bad-request" else runFrom cmd xs ys zs ts (names.zip cols) ops
       | _, _, _, _, _, _, _ => "bad-request"
